@@ -151,7 +151,8 @@ def classify(regions, x, y, margin=1e-3):
 
 DEFERRED_CFG = {"G4": "exclude", "M204": "merge", "M205": "merge", "M117": "last", "M73": "first",
                 "M106": "last", "M900": "merge"}
-CODES = ["M117 hello world", "M117 layer 2", "M204 P500", "M204 T700 P300", "M204 S1000", "M205 X0 Y8",
+CODES = ["M117 Layer 3", "M117 Layer 3", "M204 S800 T", "M204 P1000.", "M205 X Y8", "M73 P", "M106", "M204 S500",
+         "M117 hello world", "M117 layer 2", "M204 P500", "M204 T700 P300", "M204 S1000", "M205 X0 Y8",
          "M204 P0 T0", "M900 K0", "M106 S0",
          "M205 X8 Y8", "M205 Z0.4", "M73 P5", "M73 P7 R20", "G4 P10", "M104 S200", "M106 S128",
          "M106 S255", "M107", "M900 K0.2", "M900 K0.5 L1", "T0", "M400", "G4 S1", "M84"]
@@ -260,6 +261,7 @@ def gen_episode_path(r, regions, opts):
     st = {"retracted": False, "z": 0.2, "abs": True, "mm": mm, "x": 5.0, "y": 5.0}
     a = opts.get("retract_len", 1.0)
     allr = regions + opts.get("later_regions", [])
+    live_ids = [g[1] for g in regions]
 
     def goto(pool, ext_ok=True):
         for _ in range(6):
@@ -309,15 +311,43 @@ def gen_episode_path(r, regions, opts):
             ops.append(("eonly", r.choice([0.5, 2.0])))
         elif k < 0.86:
             ops.append(("feed", r.choice([1200.0, 2400.0, 3000.0])))
+        elif k < 0.89 and opts.get("delregion") and live_ids:
+            # a region deleted through the API while the program runs (also the one the tool is in)
+            ops.append(("delregion", live_ids.pop(r.randrange(len(live_ids)))))
         else:
             goto(GRID_IN if inside else GRID_OUT)
 
     for _ep in range(r.randint(1, 4)):
         for _ in range(r.randint(0, 3)):
             filler(False)
+        if opts.get("g92e") and not opts.get("fw") and not st["retracted"] and r.random() < 0.15:
+            # retract outside, recovery skipped inside (owed), the slicer's `G92 E0` while it is owed,
+            # then out and on with the print
+            ops.append(("eonly", -a))
+            st["retracted"] = True
+            goto(GRID_IN)
+            ops.append(("eonly", a))
+            st["retracted"] = False
+            if r.random() < 0.5:
+                ops.append(("g92e", r.choice([0.0, 2.5])))
+            goto(GRID_OUT)
+            if r.random() < 0.5:
+                ops.append(("g92e", 0.0))
+            goto(GRID_OUT, True)
+            continue
         goto(GRID_IN)
+        if r.random() < 0.12:
+            # a last/first-mode code repeated verbatim with another deferred code in between
+            a_code, b_code = r.choice(["M117 Layer 3", "M106 S255", "M73 P5"]), r.choice(["M204 S500", "M205 X8 Y8", "M900 K0.2"])
+            ops += [("code", a_code), ("code", b_code), ("code", a_code)]
         for _ in range(r.randint(0, 5)):
             filler(True)
+        if opts.get("delregion") and live_ids and r.random() < 0.5:
+            # every region deleted through the API while the episode is open
+            while live_ids:
+                ops.append(("delregion", live_ids.pop()))
+            for _ in range(r.randint(0, 2)):
+                filler(True)
         how = r.random()
         if how < 0.65:
             goto(GRID_OUT)
@@ -341,8 +371,10 @@ def gen_episode_path(r, regions, opts):
     return ops
 
 
-def encode_path(ops):
-    """-> list of harness events: ('g', text) | ('at', cmd, params) | ('addregion', spec)."""
+def encode_path(ops, nolead=False):
+    """-> list of harness events: ('g', text) | ('at', cmd, params) | ('addregion', spec).
+    nolead: decimals below one are written without the leading zero (`X.5`, `E-.25`)."""
+    import re
     enc = Encoder()
     out = []
     for op in ops:
@@ -350,8 +382,12 @@ def encode_path(ops):
             out.append(("at", op[1], op[2]))
         elif op[0] == "addregion":
             out.append(("addregion", op[1]))
+        elif op[0] == "delregion":
+            out.append(("delregion", op[1]))
         else:
             for t in enc.encode(op):
+                if nolead and op[0] != "code":
+                    t = re.sub(r"([A-Z])(-?)0\.(\d)", r"\1\2.\3", t)
                 out.append(("g", t))
     return out
 
@@ -417,6 +453,9 @@ def random_regions(r):
         return [("R", "a", 20.0, 20.0, 10.0, 10.0), ("R", "c", 40.0, 38.0, 50.0, 48.0)]
     if k < 0.88:
         return [("C", "a", 15.0, 15.0, 7.5), ("C", "b", 44.0, 43.0, 5.0)]
+    if k < 0.91:
+        # corners given with exactly one axis descending
+        return [("R", "a", 10.0, 20.0, 20.0, 10.0), ("R", "c", 50.0, 38.0, 40.0, 48.0)]
     if k < 0.95:
         # a circle far off the diagonal (its mirror image about the diagonal lies on common points)
         return [("R", "a", 10.0, 10.0, 20.0, 20.0), ("C", "d", 30.0, 62.0, 6.0), ("C", "e", 70.5, 40.0, 4.0)]
